@@ -109,10 +109,15 @@ enum Reader {
     GetRustLast,
     GetScriptLast,
     GetRustFirst,
+    /// `for x in list` from Rust (IntoIterator)
+    IntoIterRust,
+    /// what one thread sees of a list that only grows is monotone: an index that `get` answered is below
+    /// every later `len`, and the last index of a `len` is answered by every later `get`
+    GetThenLen,
 }
 
 const MUTATORS: [Mutator; 10] = [Mutator::PushBurst, Mutator::Nobody, Mutator::PushRust, Mutator::PushScript, Mutator::PushTwice, Mutator::SwapEnds, Mutator::SwapScript, Mutator::CloneDropHandle, Mutator::TwoPushers, Mutator::TwoSwappers];
-const READERS: [Reader; 20] = [
+const READERS: [Reader; 22] = [
     Reader::EqRustAB,
     Reader::EqRustBA,
     Reader::EqScriptAB,
@@ -133,6 +138,8 @@ const READERS: [Reader; 20] = [
     Reader::GetRustLast,
     Reader::GetScriptLast,
     Reader::GetRustFirst,
+    Reader::IntoIterRust,
+    Reader::GetThenLen,
 ];
 
 struct Cfg {
@@ -298,6 +305,7 @@ pub fn run(fns: &Arc<StressFns>, ctl: &[u8], render: bool) -> Outcome {
                     Ok((st, t0.elapsed().as_nanos()))
                 }));
             }
+            let (cfg_mutator, cfg_n) = (cfg.mutator, cfg.n);
             for r in cfg.readers.iter().copied() {
                 let (a_own, b_own, g, fns) = (if cfg.by_ref { None } else { Some(a_outer.clone()) }, if cfg.by_ref { None } else { Some(b_outer.clone()) }, g.clone(), fns.clone());
                 hs.push(s.spawn(move || -> Result<(u128, u128), String> {
@@ -359,7 +367,53 @@ pub fn run(fns: &Arc<StressFns>, ctl: &[u8], render: bool) -> Outcome {
                             for x in &v {
                                 x.0.touch("element of to_vec()");
                             }
-                            if v.len() >= len0 && v.len() <= len0 + max_pushes { Ok(()) } else { Err(format!("to_vec() has {} elements for a list of {len0} elements with at most {max_pushes} pushes", v.len())) }
+                            let swaps_only = matches!(cfg_mutator, Mutator::TwoSwappers | Mutator::SwapEnds | Mutator::SwapScript);
+                            let mut tags: Vec<i64> = v.iter().map(|x| x.0.tag).collect();
+                            tags.sort();
+                            let mut want: Vec<i64> = (0..len0).map(|i| (i.min(cfg_n - 1)) as i64).collect();
+                            want.sort();
+                            if swaps_only && tags != want {
+                                Err(format!("to_vec() during swaps holds tags {tags:?}: not a state the list was ever in (its elements are always a permutation of {want:?})"))
+                            } else if v.len() >= len0 && v.len() <= len0 + max_pushes {
+                                Ok(())
+                            } else {
+                                Err(format!("to_vec() has {} elements for a list of {len0} elements with at most {max_pushes} pushes", v.len()))
+                            }
+                        }
+                        Reader::IntoIterRust => {
+                            let mut n = 0usize;
+                            for x in a.clone() {
+                                x.0.touch("element from into_iter()");
+                                n += 1;
+                            }
+                            if n >= len0 && n <= len0 + max_pushes { Ok(()) } else { Err(format!("iterating the list gave {n} elements for a list of {len0} elements with at most {max_pushes} pushes")) }
+                        }
+                        Reader::GetThenLen => {
+                            let mut res = Ok(());
+                            'outer: for _ in 0..40 {
+                                let n = a.len();
+                                if n > 0 && a.get(n - 1).is_none() {
+                                    res = Err(format!("len() = {n}, then get({}) = None although nothing is ever removed", n - 1));
+                                    break;
+                                }
+                                for k in len0..len0 + max_pushes {
+                                    if let Some(x) = a.get(k) {
+                                        x.0.touch("element returned by get");
+                                        let n = a.len();
+                                        if n <= k {
+                                            res = Err(format!("get({k}) = Some(..), then len() = {n}"));
+                                            break 'outer;
+                                        }
+                                        if a.is_empty() {
+                                            res = Err(format!("get({k}) = Some(..), then is_empty()"));
+                                            break 'outer;
+                                        }
+                                    } else {
+                                        break;
+                                    }
+                                }
+                            }
+                            res
                         }
                         Reader::IsEmptyRust => {
                             if a.is_empty() && len0 > 0 { Err("is_empty() on a non-empty list".into()) } else { Ok(()) }
